@@ -187,6 +187,36 @@ func runC01(r *core.Run) {
 			return core.Outcome{Class: fmt.Sprint("records=", len(c.Recs)), Nontrivial: len(c.Recs) > 0, Evals: 2*len(c.Recs) + 1}
 		})
 
+	core.Clause(r, "all-bytes", core.Opts{Rule: "every byte value except CR, LF in the name and (except '>') in the sequence: alone, first, in the middle, last; as single record and as second of two records; non-trivial = all"},
+		func(emit func(c01List) bool) {
+			for b := 0; b < 256; b++ {
+				if b == '\r' || b == '\n' {
+					continue
+				}
+				for _, v := range []string{string([]byte{byte(b)}), string([]byte{byte(b), 'a'}), string([]byte{'a', byte(b), 'c'}), string([]byte{'a', byte(b)})} {
+					recs := []faRec{{core.S(v), "ACGT"}}
+					if b != '>' {
+						recs = append(recs, faRec{"n", core.S(v)})
+					}
+					for _, rc := range recs {
+						if !emit(c01List{[]faRec{rc}}) || !emit(c01List{[]faRec{{"first", "AC"}, rc}}) {
+							return
+						}
+					}
+				}
+			}
+		},
+		func(c c01List) core.Outcome {
+			data, fail := writeFastaChecked(c.Recs)
+			if fail != "" {
+				return core.Failf("%s", fail)
+			}
+			if out := checkFastaRead(data, c.Recs, "write->read"); out.Fail != "" {
+				return out
+			}
+			return core.Outcome{Class: "ok", Nontrivial: true, Evals: 2*len(c.Recs) + 1}
+		})
+
 	var lens []int
 	for l := 0; l <= 400; l++ {
 		lens = append(lens, l)
